@@ -9,6 +9,7 @@ quantified goals for comprehensions.  Every obligation is discharged by z3 (unsa
 from __future__ import annotations
 
 import ast
+import os
 import builtins
 import inspect
 import itertools
@@ -1773,7 +1774,8 @@ class Verdict:
 class Prover:
     def __init__(self, eng: Engine, timeout_ms=10000, extra_axioms=()):
         self.eng = eng
-        self.timeout_ms = timeout_ms
+        # VERIF_TIMEOUT_SCALE < 1 is a diagnostic: it shows which obligations sit close to the budget
+        self.timeout_ms = max(1, int(timeout_ms * float(os.environ.get("VERIF_TIMEOUT_SCALE", "1") or 1)))
         self.extra = list(extra_axioms)
         self.queries = 0
         self.time_s = 0.0
